@@ -8,6 +8,10 @@ Line-protocol operations for the burst model (C01).
 * `burst.build <cc> <sync value> <kind> <fields …>` → the 264 bits of the assembled burst, or `ERR …`
 * `slot.dec <20 bits>`, `emb.dec <16 bits>` → fields and re-serialised bits
 * `sync.resolve <48-bit value>` → pattern value or `EMB` (`SyncPatterns.resolve_bytes`)
+* `burst.mmdvm <E|I><frame_type> <E|I><slot_no> <264 bits>` → as `burst.parse`, for `Burst.from_mmdvm` of a frame object whose
+  `frame_type` / `slot_no` hold an Enum member (E, as the Kaitai parser leaves them) or a plain int (I)
+* `burst.ipsc <slot type> <call type> <timeslot> <264 bits>` → as `burst.parse`, for `Burst.from_hytera_ipsc`; `pseudo sync` /
+  `pseudo wakeup` for the two Hytera pseudo bursts
 -/
 
 namespace Dmr.Driver
@@ -66,6 +70,21 @@ def payloadParse (kind : String) (f : List String) : Option (Except Err Payload)
   | "rate1", f => ratePayload rate1 crcs.r1 .rate1 f
   | _, _ => none
 
+def parsedToString (q : Burst) (ser : Except Err Bits) : String :=
+  "ok " ++ syncToString q.sync ++ " " ++ sBool q.isVoiceSuperframeStart ++ sBool q.isVocoder
+    ++ sBool q.isDataOrControl ++ sBool q.hasEmb ++ " " ++ optS embToString q.emb ++ " "
+    ++ optS slotToString q.slotType ++ " " ++ optS payloadToString q.data ++ " "
+    ++ (match ser with
+        | .ok x => sBits x
+        | .error e => e.toString)
+
+/-- `E<n>`: an Enum member with value n, `I<n>`: a plain int -/
+def kvalOf (s : String) : Option KVal :=
+  match s.toList with
+  | 'E' :: r => (String.ofList r).toNat?.map KVal.member
+  | 'I' :: r => (String.ofList r).toNat?.map KVal.int
+  | _ => none
+
 def burstOp (op : String) (a : List String) : Option String :=
   match op, a with
   | "burst.parse", [bt, bs] => do
@@ -73,13 +92,28 @@ def burstOp (op : String) (a : List String) : Option String :=
     let bs ← pBits bs
     some (match Burst.parse crcs bs bt with
       | .error e => e.toString
-      | .ok q =>
-        "ok " ++ syncToString q.sync ++ " " ++ sBool q.isVoiceSuperframeStart ++ sBool q.isVocoder
-          ++ sBool q.isDataOrControl ++ sBool q.hasEmb ++ " " ++ optS embToString q.emb ++ " "
-          ++ optS slotToString q.slotType ++ " " ++ optS payloadToString q.data ++ " "
-          ++ (match Burst.serialise q with
-              | .ok x => sBits x
-              | .error e => e.toString))
+      | .ok q => parsedToString q (Burst.serialise q))
+  | "burst.mmdvm", [ft, sl, bs] => do
+    let ft ← kvalOf ft
+    let sl ← kvalOf sl
+    let bs ← pBits bs
+    some (match Burst.fromMmdvm crcs ⟨ft, sl, 0, 0, 0, 0, bs⟩ with
+      | .error e => e.toString
+      | .ok o => parsedToString o.core o.serialise)
+  | "burst.ipsc", [st, ct, ts, bs] => do
+    let st ← pNat st
+    let ct ← pNat ct
+    let ts ← pNat ts
+    let bs ← pBits bs
+    let f : IpscFrame := ⟨st, ct, ts, 0, 0, 0, bs⟩
+    some (match Burst.fromIpsc crcs f with
+      | .error e => e.toString
+      | .ok (some o) => parsedToString o.core o.serialise
+      | .ok none =>
+        match Burst.ipscKind f with
+        | .ok .sync => "pseudo sync"
+        | .ok .wakeup => "pseudo wakeup"
+        | _ => "pseudo ?")
   | "burst.build", cc :: sync :: kind :: f => do
     let cc ← pNat cc
     let sync ← pNat sync
